@@ -1,5 +1,6 @@
 import RdsProps.Instantiated
 import RdsProofs.TableC20
+import RdsProofs.C20Proofs
 /-!
 # Property C20 — all four build configurations decode identically (modulo charset width)
 
@@ -21,6 +22,12 @@ of the model on every run):
   presented) and `C20_nontext` (everything but text characters/levels, for all histories) in RdsProofs/C20Proofs.lean.
 -/
 -- THEOREM: RDS.C20_full_false
+-- THEOREM: RDS.C20_ascii
+-- THEOREM: RDS.C20_ascii_step
+-- THEOREM: RDS.C20_nontext
+-- THEOREM: RDS.C20_nontext_step
+-- THEOREM: RDS.C20_ascii_generated
+-- THEOREM: RDS.C20_nontext_generated
 -- THEOREM: RDS.C20_narrow_table
 -- THEOREM: RDS.C20_narrow_is_conv
 -- THEOREM: RDS.C20_consts
@@ -49,5 +56,34 @@ theorem C20_full_false :
     psCallbacks (Generated.cfg true) c20Witness = 2 ∧ psCallbacks (Generated.cfg false) c20Witness = 1 ∧
     cell0Level (Generated.cfg true) c20Witness = some 5 ∧ cell0Level (Generated.cfg false) c20Witness = some 0 := by
   decide +kernel
+
+theorem g0_getD_any (b : Nat) (hb : b < 256) (d d' : Nat) : Generated.g0.getD b d = Generated.g0.getD b d' := by
+  have hl : Generated.g0.length = 256 := tbl_generated_lengths.1
+  simp [List.getD_eq_getElem?_getD, List.getElem?_eq_getElem (by omega : b < Generated.g0.length)]
+
+/-- the regenerated charset table satisfies the premise of `C20_ascii` -/
+theorem g0Ascii_generated (u : Bool) : G0Ascii (Generated.cfg u) := by
+  obtain ⟨hinj, h20, hnz⟩ := C20_g0_injective_ascii
+  refine ⟨?_, ?_, ?_⟩
+  · show Generated.g0.getD 0x20 0x20 = 0x20
+    rw [g0_getD_any 0x20 (by omega) 0x20 0]; exact h20
+  · intro b h1 h2
+    show Generated.g0.getD b 0x20 ≠ 0
+    rw [g0_getD_any b (by omega) 0x20 0]; exact hnz b h1 h2
+  · intro b c hb1 hb2 hc1 hc2 heq
+    have heq' : Generated.g0.getD b 0x20 = Generated.g0.getD c 0x20 := heq
+    rw [g0_getD_any b (by omega) 0x20 0, g0_getD_any c (by omega) 0x20 0] at heq'
+    exact hinj b c hb1 hb2 hc1 hc2 heq'
+
+/-- C20 (A) for the compiled library's tables: on histories that never present a byte ≥ 0x7F the narrow build's state,
+seen through the character embedding, IS the wide build's state -/
+theorem C20_ascii_generated (ops : List Op) (ha : ∀ op ∈ ops, op.asciiOnly = true) :
+    embedState (Generated.cfg true) (run (Generated.cfg true).narrow ops) = run (Generated.cfg true).wide ops :=
+  C20_ascii (Generated.cfg true) (g0Ascii_generated true) ops ha
+
+/-- C20 (B) for the compiled library's tables, all histories -/
+theorem C20_nontext_generated (ops : List Op) :
+    nonText (run (Generated.cfg true).narrow ops) = nonText (run (Generated.cfg true).wide ops) :=
+  C20_nontext ⟨Generated.cfg true, Generated.countryCount⟩ (eccOk true) ops
 
 end RDS
